@@ -131,7 +131,7 @@ theorem focus_widget_body_eq_model (e : EOracle) (fuel : Nat) (s : St) (w : Id) 
     the focus has moved (3 trace entries: FocusOut call, `focused = 1`, FocusIn call). -/
 example :
     let o : Oracle := ⟨fun _ _ _ _ => .redraw, fun _ => false⟩
-    (runFocusWidget (parseBody Gen.VxfwBodies.focusWidget) ⟨o, fun w ev _ _ => w = 1 ∧ ev = .focusIn⟩ 2 (St.init 0) 1).map
+    (runFocusWidget (parseBody Lemmas.VxfwBodyExpected.focusWidget) ⟨o, fun w ev _ _ => w = 1 ∧ ev = .focusIn⟩ 2 (St.init 0) 1).map
       (fun r => (r.1.focused, r.1.trace.length, r.1.redraw, r.2)) = some (1, 4, true, true) := by decide +kernel
 
 /-- The regenerated bodies of `mouseHandler.mouseExit` / `mouseEnter` are the ones the execution lemmas are about. -/
@@ -177,10 +177,14 @@ theorem mouse_exit_body_closes (o : Oracle) (fuel : Nat) (s : St) :
 example :
     let o : Oracle := ⟨fun w _ ph _ => if w = 2 ∧ ph = .bubble then .consume else .nil, fun w => w ≤ 1⟩
     let s0 : St := { focused := 3, root := 0, path := [0, 1, 2, 3] }
-    ((runFocusHandleEvent (parseBody Gen.VxfwBodies.focusHandleEvent) ⟨o, fun _ _ _ _ => false⟩ 3 s0 (.key 1) 5).map
+    ((runFocusHandleEvent (parseBody Lemmas.VxfwBodyExpected.focusHandleEvent) ⟨o, fun _ _ _ _ => false⟩ 3 s0 (.key 1) 5).map
         (fun r => (r.1.calls, r.2)) = some (4, false)) ∧
-    ((runFocusHandleEvent (parseBody Gen.VxfwBodies.focusHandleEvent) ⟨o, fun w _ ph _ => w = 3 ∧ ph = .target⟩ 3 s0 (.key 1) 5).map
+    ((runFocusHandleEvent (parseBody Lemmas.VxfwBodyExpected.focusHandleEvent) ⟨o, fun w _ ph _ => w = 3 ∧ ph = .target⟩ 3 s0 (.key 1) 5).map
         (fun r => (r.1.calls, r.2)) = some (3, true)) := by decide +kernel
+
+/-! The non-vacuity `example`s of this file run the interpreters on the EXPECTED copies of the bodies (`Lemmas/VxfwBodyExpected.lean`), not on
+    the regenerated ones: a source change must show up as a failing `*_as_expected` theorem, not as a kernel evaluation of unknown cost
+    (a reversed batch loop in `handleCommand` once made the knot example use 40 GB). -/
 
 /-! ## Round 4: `updatePath`, `mouseHandler.update`, `App.handleCommand` executed from their bodies; the `Run` loop over
     the executed bodies; hover balance for it -/
@@ -229,7 +233,7 @@ theorem handle_command_body_eq_model (e : EOracle) (fuel : Nat) (s : St) (c : Cm
     nowhere; `nil` elements are skipped. -/
 example :
     let o : Oracle := ⟨fun _ _ _ _ => .nil, fun _ => false⟩
-    (runHandleCommand (parseBody Gen.VxfwBodies.handleCommand) ⟨o, fun _ _ _ _ => false⟩ 2 (St.init 0)
+    (runHandleCommand (parseBody Lemmas.VxfwBodyExpected.handleCommand) ⟨o, fun _ _ _ _ => false⟩ 2 (St.init 0)
         (.batch [.redraw, .nil, .slice [.other 5, .batch [.focus 2, .quit]], .consume])).map
       (fun s => (s.redraw, s.quit, s.consume, s.focused, s.trace.length)) = some (true, true, true, 2, 7) := by decide +kernel
 
@@ -241,9 +245,9 @@ example :
     let o : Oracle := ⟨fun _ _ _ _ => .nil, fun _ => false⟩
     let t : STree := .node 0 10 10 [(1, 1, 0, .node 1 2 2 []), (5, 5, 0, .node 3 3 3 [])]
     let s0 : St := { St.init 0 with mouse := some (6, 6), lastHits := [⟨1, 1, 0⟩, ⟨0, 0, 1⟩] }
-    ((runMouseUpdate (parseBody Gen.VxfwBodies.mouseUpdate) ⟨o, fun _ _ _ _ => false⟩ 2 s0 t).map
+    ((runMouseUpdate (parseBody Lemmas.VxfwBodyExpected.mouseUpdate) ⟨o, fun _ _ _ _ => false⟩ 2 s0 t).map
         (fun r => (r.1.calls, r.1.lastHits.map (·.w), r.2)) = some (4, [0, 3], false)) ∧
-    ((runMouseUpdate (parseBody Gen.VxfwBodies.mouseUpdate) ⟨o, fun _ ev _ _ => ev = .mouseLeave⟩ 2 s0 t).map
+    ((runMouseUpdate (parseBody Lemmas.VxfwBodyExpected.mouseUpdate) ⟨o, fun _ ev _ _ => ev = .mouseLeave⟩ 2 s0 t).map
         (fun r => (r.1.calls, r.1.lastHits.map (·.w), r.2)) = some (1, [0, 1], true)) := by decide +kernel
 
 /-- The regenerated bodies, parsed: what `bRun` executes. -/
@@ -339,10 +343,10 @@ theorem child_has_focus_body_eq_model (f : Id) (path : List Id) (t : STree) :
     path of widget 2 (drawn inside 1 inside 0), appended target first. -/
 example :
     let t : STree := .node 0 10 10 [(1, 1, 0, .node 1 5 5 [(0, 0, 0, .node 2 2 2 [])]), (5, 5, 1, .node 3 3 3 []), (-3, -3, 0, .node 4 5 5 [])]
-    (VxfwInterpTree.runHitTest (parseBody Gen.VxfwBodies.hitTest) Gen.VxfwBodies.containsPoint t [] 1 1).map
+    (VxfwInterpTree.runHitTest (parseBody Lemmas.VxfwBodyExpected.hitTest) Lemmas.VxfwBodyExpected.containsPoint t [] 1 1).map
         (·.map (fun h => (h.col, h.row, h.w))) = some [(1, 1, 0), (0, 0, 1), (0, 0, 2), (4, 4, 4)] ∧
-    VxfwInterpTree.runChildHasFocus (parseBody Gen.VxfwBodies.childHasFocus) 2 [] t = some ([2, 1, 0], true) ∧
-    VxfwInterpTree.runChildHasFocus (parseBody Gen.VxfwBodies.childHasFocus) 9 [7] t = some ([7], false) := by decide +kernel
+    VxfwInterpTree.runChildHasFocus (parseBody Lemmas.VxfwBodyExpected.childHasFocus) 2 [] t = some ([2, 1, 0], true) ∧
+    VxfwInterpTree.runChildHasFocus (parseBody Lemmas.VxfwBodyExpected.childHasFocus) 9 [7] t = some ([7], false) := by decide +kernel
 
 /-- The regenerated body of `focusHandler.findPath` is the one the execution lemma is about. -/
 theorem find_path_body_as_expected : Gen.VxfwBodies.findPath = Lemmas.VxfwBodyExpected.findPath := by decide +kernel
@@ -365,9 +369,9 @@ theorem find_path_body_eq_model (s : St) :
     `findPath` appends 7 and reverses five elements in place; an undrawn focus gives `[root]` and false. -/
 example :
     let t : STree := .node 0 10 10 [(1, 1, 0, .node 1 5 5 [(0, 0, 0, .node 2 2 2 [(0, 0, 0, .node 5 1 1 [])])]), (5, 5, 1, .node 3 3 3 [])]
-    VxfwInterpTree.runFindPath (parseBody Gen.VxfwBodies.findPath) (parseBody Gen.VxfwBodies.childHasFocus) 5 7 (some t) = some ([7, 0, 1, 2, 5], true) ∧
-    VxfwInterpTree.runFindPath (parseBody Gen.VxfwBodies.findPath) (parseBody Gen.VxfwBodies.childHasFocus) 9 0 (some t) = some ([0], false) ∧
-    VxfwInterpTree.runFindPath (parseBody Gen.VxfwBodies.findPath) (parseBody Gen.VxfwBodies.childHasFocus) 9 0 none = some ([0], false) := by decide +kernel
+    VxfwInterpTree.runFindPath (parseBody Lemmas.VxfwBodyExpected.findPath) (parseBody Lemmas.VxfwBodyExpected.childHasFocus) 5 7 (some t) = some ([7, 0, 1, 2, 5], true) ∧
+    VxfwInterpTree.runFindPath (parseBody Lemmas.VxfwBodyExpected.findPath) (parseBody Lemmas.VxfwBodyExpected.childHasFocus) 9 0 (some t) = some ([0], false) ∧
+    VxfwInterpTree.runFindPath (parseBody Lemmas.VxfwBodyExpected.findPath) (parseBody Lemmas.VxfwBodyExpected.childHasFocus) 9 0 none = some ([0], false) := by decide +kernel
 
 /-- **C15 over the executed bodies, in one statement.**  For every widget behaviour `o` whose refocus chains from focus
     notifications terminate (`NotifRanked`, ranks ≤ `R`), every history of the Run loop over the EXECUTED bodies (`bRun`: Init,
@@ -408,7 +412,7 @@ theorem c15_over_executed_bodies (o : Oracle) (rk : Id → Nat) (R : Nat) (hR : 
     a mouse event and a terminal FocusOut: all hypotheses hold, so all seven clauses do. -/
 example :
     let t : STree := .node 0 9 9 [(0, 0, 0, .node 1 2 2 []), (3, 3, 0, .node 2 2 2 [])]
-    ∃ s', bRun genBodies (e0 C15.chainOracle) 6 0 t [.ev (.key 1), .frame t t, .ev (.mouse 1 1), .ev .focusOut] = some (s', false) ∧
+    ∃ s', bRun Lemmas.VxfwBodyRun.expB (e0 C15.chainOracle) 6 0 t [.ev (.key 1), .frame t t, .ev (.mouse 1 1), .ev .focusOut] = some (s', false) ∧
       s'.stuck = false ∧ s'.path = drawnPath s' ∧ (effectsIn s'.trace).Perm (owed C15.chainOracle.h 0 s'.trace) := by
   intro t
   have hn : HitsNodup t := hitsNodup_of_ids t (by decide)
@@ -468,7 +472,7 @@ theorem handle_command_bodies_eq_model (e : EOracle) (fuel : Nat) (s : St) (c : 
     focuses 2 and asks for a redraw): the focus ends on 2, redraw is set, 4 handler calls (FocusOut 0, FocusIn 1, FocusOut 1,
     FocusIn 2), budget not exhausted. -/
 example :
-    (runHandleCommandAll (parseBody Gen.VxfwBodies.handleCommand) genCallees (e0 C15.chainOracle) 3 (St.init 0) (.focus 1)).map
+    (runHandleCommandAll (parseBody Lemmas.VxfwBodyExpected.handleCommand) Lemmas.VxfwBodyAll.expC (e0 C15.chainOracle) 3 (St.init 0) (.focus 1)).map
       (fun s => (s.focused, s.redraw, s.calls, s.stuck)) = some (2, true, 4, false) := by decide +kernel
 
 /-! ## The order of the hover notifications of one `update`, explicitly -/
@@ -580,10 +584,10 @@ theorem run_select_bodies_eq_model (e : EOracle) (fuel : Nat) (root : Id) (t0 : 
 example :
     let o : Oracle := ⟨fun _ ev _ _ => if ev = .key 1 then .quit else .nil, fun _ => false⟩
     let t : STree := .node 0 9 9 [(0, 0, 1, .node 1 2 2 []), (3, 3, 0, .node 2 2 2 [])]
-    let C := rCallees genBodies genCallees (e0 o) 2
-    ((runEventBlock (parseBody Gen.VxfwBodies.runEventBlock) C (St.init 0) (.key 1)).map (fun r => (r.1.quit, r.2)) = some (true, .ret false)) ∧
-    ((runFrameBlock (parseBody Gen.VxfwBodies.runFrameBlock) C (St.init 0) t t).map (·.2) = some .cont) ∧
-    ((runFrameBlock (parseBody Gen.VxfwBodies.runFrameBlock) C { St.init 0 with redraw := true } t t).map
+    let C := rCallees Lemmas.VxfwBodyRun.expB Lemmas.VxfwBodyAll.expC (e0 o) 2
+    ((runEventBlock (parseBody Lemmas.VxfwBodyExpected.runEventBlock) C (St.init 0) (.key 1)).map (fun r => (r.1.quit, r.2)) = some (true, .ret false)) ∧
+    ((runFrameBlock (parseBody Lemmas.VxfwBodyExpected.runFrameBlock) C (St.init 0) t t).map (·.2) = some .cont) ∧
+    ((runFrameBlock (parseBody Lemmas.VxfwBodyExpected.runFrameBlock) C { St.init 0 with redraw := true } t t).map
         (fun r => (r.1.redraw, r.1.lastFrame.ch.map (·.2.2.2.id), r.2)) = some (false, [2, 1], .norm)) := by decide +kernel
 
 /-! ## Round 4: the knot `handleCommand ↔ focusWidget` and the Run loop with no model function of the dispatch inside -/
@@ -630,8 +634,8 @@ theorem run_knot_eq_model (e : EOracle) (fuel : Nat) (root : Id) (t0 : STree) (s
 /-- Non-vacuity: the chain oracle through the knot — `focus 1` at budget 3: widget 1's FocusIn handler focuses 2 (nested
     `handleCommand` at budget 2 → `focusWidget` → …); at budget 1 the nested command finds the budget exhausted. -/
 example :
-    (kHandleCommand genAll (e0 C15.chainOracle) 3 (St.init 0) (.focus 1)).map (fun s => (s.focused, s.calls, s.stuck)) = some (2, 4, false) ∧
-    (kHandleCommand genAll (e0 C15.chainOracle) 1 (St.init 0) (.focus 1)).map (fun s => (s.focused, s.stuck)) = some (1, true) := by
+    (kHandleCommand Lemmas.VxfwBodyKnot.expA (e0 C15.chainOracle) 3 (St.init 0) (.focus 1)).map (fun s => (s.focused, s.calls, s.stuck)) = some (2, 4, false) ∧
+    (kHandleCommand Lemmas.VxfwBodyKnot.expA (e0 C15.chainOracle) 1 (St.init 0) (.focus 1)).map (fun s => (s.focused, s.stuck)) = some (1, true) := by
   decide +kernel
 
 /-- **Hover under failing handlers, for the loop with no model function inside**: whatever calls fail, `kRun` ends in a state whose
